@@ -405,8 +405,12 @@ func (ch c10) runCase(c *core.Ctx, envPlain, envAuth *hs.Env, k c10case, idx int
 		cl.C.Send(pg.Startup([][2]string{{"user", "u"}}))
 		cl.C.Quiesce()
 		cl.C.Send(msg)
-		if k.Mode != "body" {
+		if k.Mode != "body" && !(k.Mode == "declared" && idx%2 == 0) {
 			cl.C.CloseWrite()
+		} else if k.Mode == "declared" {
+			// the client has sent the head of a huge password message and waits: the connection ends on the
+			// declared length, not after the declared number of bytes has been read
+			c.Count("stalled_oversized_password_messages", 1)
 		}
 		closed, _ := cl.C.Quiesce()
 		if hangCheck(c, cl, cs) {
